@@ -795,7 +795,12 @@ func (g *Gen) addMsg() Op {
 	if !ok {
 		return g.create(true)
 	}
-	return NewOp("ADDMSG", "a", g.auctionId(a), "ea", fmt.Sprint(a.GetId()), "who", g.who(g.r.N(NUsers)), "max", g.maxAmt(a))
+	ea := fmt.Sprint(a.GetId())
+	if g.r.P(40) {
+		// the entry inside the message names another auction than the message itself (or none: 0)
+		ea = g.r.Pick("0", fmt.Sprint(a.GetId()+1), fmt.Sprint(g.r.N(4)))
+	}
+	return NewOp("ADDMSG", "a", g.auctionId(a), "ea", ea, "who", g.who(g.r.N(NUsers)), "max", g.maxAmt(a))
 }
 
 // Next yields the next operation of the history
